@@ -60,13 +60,9 @@ class GO(G):
 '''
 
 
-def build_task(mod, ts, tasks, outs, created):
-    """returns (task object, init task list)"""
-    kw = {"k": ts["k"]}
-    items, m, hs, os_, mo = [], {}, [], [], {}
-    pre, init, explicit = [], [], []
-    hh = []  # holders for the single-valued parameter `h` (the first one) — the others go to `hs`
-
+def build_task(mod, ts, tasks, outs, created, extra):
+    """returns (task object, init task list); `extra[j]` = upstream tasks that reach the output object of
+    task j through pre-tasks added to that output after j was submitted"""
     def holder(**k):
         o = mod.Holder(**k)
         created.append(o)
@@ -77,9 +73,22 @@ def build_task(mod, ts, tasks, outs, created):
         created.append(o)
         return o
 
-    for pos, j in ts["embeds"]:
+    kw = {"k": ts["k"]}
+    items, m, hs, os_, mo = [], {}, [], [], {}
+    pre, init, explicit = [], [], []
+    hh = []  # holders for the single-valued parameter `h` (the first one) — the others go to `hs`
+
+    for emb in ts["embeds"]:
+        pos, j = emb[0], emb[1]
         T, O = tasks[j], outs[j]  # the task object and what its submit returned
         is_task_value = O is T
+        if pos == "o.pre":
+            # a pre-task carrying another upstream task, added to the (unsealed) output object of task j
+            k = emb[2]
+            if not is_task_value and tasks[k] is outs[k]:
+                O.add_pretasks(lwd(t=tasks[k]))
+                extra.setdefault(j, set()).add(k)
+            pos = "o"
         if pos in ("a", "ma", "o") and pos in kw:
             pos = "items" if is_task_value else "os"   # single-valued position already used
         if pos == "a" and is_task_value:
@@ -160,10 +169,10 @@ def main():
             try:
                 ws = root / f"ws{ci}"
                 with experiment(ws, "deps", port=-1, run_mode=RunMode.DRY_RUN):
-                    tasks, outs, created = [], [], []
+                    tasks, outs, created, extra = [], [], [], {}
                     actual = []
                     for ts in case["tasks"]:
-                        t, init = build_task(mod, ts, tasks, outs, created)
+                        t, init = build_task(mod, ts, tasks, outs, created, extra)
                         import io, contextlib
                         with contextlib.redirect_stderr(io.StringIO()):
                             o = t.submit(init_tasks=init) if init else t.submit()
@@ -177,13 +186,17 @@ def main():
                             j = next((i for i, u in enumerate(tasks) if u.__xpm__.job is origin), None)
                             deps.append(j)
                         actual.append(sorted(set(x for x in deps if x is not None)))
-                        rec["expected"].append(sorted({j for _, j in ts["embeds"]}))
+                        exp = {e[1] for e in ts["embeds"]}
+                        for e in ts["embeds"]:
+                            if e[0] != "explicit" and outs[e[1]] is not tasks[e[1]]:
+                                exp |= extra.get(e[1], set())
+                        rec["expected"].append(sorted(exp))
                     index = {id(o): i for i, o in enumerate(created)}
                     rec["lines"].append({"op": "graph", "nodes": cfgbuild.model_graph(created)})
                     rec["impl"].append({"ok": True})
                     tnode = [index[id(t)] for t in tasks]
                     for i, t in enumerate(tasks):
-                        explicit = sorted({tnode[j] for pos, j in case["tasks"][i]["embeds"] if pos == "explicit"})
+                        explicit = sorted({tnode[e[1]] for e in case["tasks"][i]["embeds"] if e[0] == "explicit"})
                         rec["lines"].append({"op": "deps", "n": tnode[i], "explicit": explicit})
                         rec["impl"].append({"deps": sorted(tnode[j] for j in actual[i])})
                     rec["actual"] = actual
